@@ -15,7 +15,7 @@ from sim.terms import EX, XSD, T, key, skey, u
 
 ID = "C12"
 LEVEL = "fault_enumeration"
-TIERS = {"quick": {"runs": 4800, "wall_cap": 600}, "thorough": {"runs": 60000, "wall_cap": 3300}}
+TIERS = {"quick": {"runs": 8000, "wall_cap": 600}, "thorough": {"runs": 60000, "wall_cap": 3300}}
 RULE = (
     "each evaluation is one seeded history of 1-5 parse() calls (N-Triples, N-Quads, Turtle, TriG, N3, RDF/XML, TriX, JSON-LD, HexTuples mixed) "
     "into one sink (Graph on Memory or SimpleMemory, Dataset with default_union off/on, ConjunctiveGraph, named Graph view on a dataset store) "
